@@ -31,6 +31,22 @@ def fork_bool_return(ctx, p, st):
         return [st]
     out = []
     node = p.exit[1].value if hasattr(p.exit[1], "value") else None
+    cases = _bool_cases(st.ret)
+    if cases is not None and len(cases) <= 16:
+        # `return (a and b) or c`: one state per way the short-circuit evaluation can go, atoms logged in the
+        # order they are evaluated - the same states the if / else spelling produces
+        for atoms, val in cases:
+            s2 = st.fork()
+            ok = True
+            for t_, pol_ in atoms:
+                if not eng.assume(t_, pol_, s2.facts):
+                    ok = False
+                    break
+                s2.log.append((t_, pol_, node))
+            if ok:
+                s2.ret = ("c", val)
+                out.append(s2)
+        return out or [st]
     for pol in (True, False):
         s2 = st.fork()
         if eng.assume(st.ret, pol, s2.facts):
@@ -38,6 +54,39 @@ def fork_bool_return(ctx, p, st):
             s2.ret = ("c", pol)
             out.append(s2)
     return out or [st]
+
+
+def _bool_cases(t):
+    """[(atoms evaluated [(term, polarity)], value)] of a boolean expression built from comparisons with not / and /
+    or, following short-circuit evaluation; None if an operand is not a boolean-valued expression."""
+    if t[0] == "cmp":
+        return [([(t, True)], True), ([(t, False)], False)]
+    if t[0] == "un" and t[1] == "not":
+        sub = _bool_cases(t[2])
+        if sub is None:
+            if t[2][0] in ("p", "slice"):
+                return [([(t[2], True)], False), ([(t[2], False)], True)]
+            return None
+        return [(a, not v) for a, v in sub]
+    if t[0] == "bool" and t[1] in ("and", "or"):
+        stop = (t[1] == "or")  # the value that ends the evaluation
+        acc = [([], None)]
+        for x in t[2]:
+            sub = _bool_cases(x)
+            if sub is None:
+                return None
+            nxt = []
+            for atoms, val in acc:
+                if val is not None:
+                    nxt.append((atoms, val))
+                    continue
+                for a2, v2 in sub:
+                    nxt.append((atoms + a2, v2 if v2 == stop else None))
+            acc = nxt
+            if len(acc) > 64:
+                return None
+        return [(a, (not stop) if v is None else v) for a, v in acc]
+    return None
 
 
 def ret_term(st):
